@@ -216,6 +216,18 @@ func (c *c12) l2Matrix(o *OracleEnv, admin string, execs []string, pastExecs, pa
 	cands := []signerCand{{"module-authority", l2.Authority}, {"admin", admin}, {"stranger0", sim.NewAccount("stranger0").String()}, {"stranger1", sim.NewAccount("stranger1").String()}, {"user", o.Users[0].String()}}
 	for i, e := range execs {
 		cands = append(cands, signerCand{fmt.Sprintf("executor-%d", minInt(i, 2)), e})
+		// another account whose (longer or shorter) address merely begins with / is the beginning of the executor's
+		if eb, err := sdk.AccAddressFromBech32(e); err == nil && i == 0 {
+			longer := sdk.AccAddress(append(append([]byte(nil), eb...), 0xAA, 0xBB, 0xCC, 0xDD, 1, 2, 3, 4, 5, 6, 7, 8)).String()
+			if !in(longer, execs) {
+				cands = append(cands, signerCand{"address-extending-an-executors", longer})
+			}
+			if len(eb) > 20 {
+				if shorter := sdk.AccAddress(eb[:20]).String(); !in(shorter, execs) {
+					cands = append(cands, signerCand{"20-byte-prefix-of-an-executors-address", shorter})
+				}
+			}
+		}
 	}
 	for i, e := range pastExecs {
 		if !in(e, execs) {
@@ -515,7 +527,11 @@ func (c *c12) l2(thorough bool) {
 		switch c.rng.Intn(4) {
 		case 0: // executors via params
 			p, _ := l2.K.GetParams(l2.Ctx)
-			n := 1 + c.rng.Intn(3)
+			n := c.rng.Intn(4) // 0 = every executor is revoked
+			if c.rng.Chance(15) {
+				// the role goes to a 32-byte (module-derived) address
+				pool = append(pool, sim.Account{Name: "executor-with-32-byte-address", Addr: sdk.AccAddress(ophosttypes.BridgeAddress(uint64(900 + s)))})
+			}
 			var list []string
 			for len(list) < n {
 				a := mon.Pick(c.rng, pool).String()
